@@ -7,7 +7,7 @@ Property theorems about `XlModel.FormulaRef` (transcription of adjust.go's
 references (all 16384 columns, all rows, every `$` combination), all edits and
 all token lists.
 -/
-import XlModel.Lemmas.FormulaRef7
+import XlModel.Lemmas.FormulaRef9
 
 namespace XlModel.Props.C07
 open XlModel XlModel.Ref XlModel.FormulaRef
@@ -848,6 +848,183 @@ example : refsAll (goodKey ⟨.rows, 4, 2⟩)
     (.bin .add (.ref (keyOf (.cell ⟨true, 2⟩ ⟨true, 3⟩))) (.ref (keyOf (.cell ⟨false, 3⟩ ⟨false, 4⟩)))) := by
   refine ⟨⟨⟨true, 2⟩, ⟨true, 3⟩, ⟨true, 2⟩, ⟨true, 3⟩, rfl, by decide, by decide +kernel, by decide⟩,
     ⟨⟨false, 3⟩, ⟨false, 4⟩, ⟨false, 3⟩, ⟨false, 6⟩, rfl, by decide, by decide +kernel, by decide⟩⟩
+
+/-! ## Defined names: every name of the workbook is visited -/
+
+/-- **defined_names_each_adjusted** — clause "in cells, defined names and data-validation rules":
+`adjustDefinedNames` treats every defined name on its own — the text at position `i` of the result is
+the rewrite of the name at position `i`, whatever stands before or after it (in particular a name
+whose rewrite FAILS, e.g. `Sheet1!$A$1:$XFD$1` on a column insert, does not stop the names after it
+from being rewritten), and no name is added or lost. Tied by the transcript op `dn`. -/
+theorem defined_names_each_adjusted (sheet : Str) (e : Edit) (names : List Str)
+    (pre post : List (Str × List Token)) (d : Str × List Token) :
+    (Impl.adjustDefinedNames sheet e names (pre ++ d :: post))[pre.length]? =
+        some (Impl.adjustDefinedName sheet e names d) ∧
+    (Impl.adjustDefinedNames sheet e names (pre ++ d :: post)).length = (pre ++ d :: post).length := by
+  simp [Impl.adjustDefinedNames]
+
+/-- an adjustable name gets the rewritten text … -/
+theorem defined_name_adjustable (sheet : Str) (e : Edit) (names : List Str) (d : Str × List Token) (v : Str)
+    (h : Impl.adjustRef ⟨sheet, [], true, e, names, d.1⟩ d.2 = (v, none)) :
+    Impl.adjustDefinedName sheet e names d = v := by
+  simp [Impl.adjustDefinedName, h]
+
+/-- … and one whose rewrite fails (a reference pushed out of the grid) keeps its text -/
+theorem defined_name_unadjustable_kept (sheet : Str) (e : Edit) (names : List Str) (d : Str × List Token)
+    (v : Str) (er : Err) (h : Impl.adjustRef ⟨sheet, [], true, e, names, d.1⟩ d.2 = (v, some er)) :
+    Impl.adjustDefinedName sheet e names d = d.1 := by
+  simp [Impl.adjustDefinedName, h]
+
+/-- a defined name that is one reference into the edited sheet is relocated (absolute coordinates
+move, relative ones stay: `Spec.shiftRef true`), the prefix re-emitted through `escapeSheetName` -/
+theorem defined_name_reference_relocated (sheet : Str) (e : Edit) (names : List Str) (text : Str)
+    (r r' : Spec.Ref) (hne : sheet ≠ [])
+    (hn : names.contains (sheet ++ '!' :: Spec.render r) = false)
+    (hb : Impl.containsBracket (sheet ++ '!' :: Spec.render r) = false)
+    (hg : Spec.inGrid r) (hs : Spec.shiftRef true e r = some r') (hg' : Spec.inGrid r') :
+    Impl.adjustDefinedName sheet e names (text, [⟨sheet ++ '!' :: Spec.render r, .operand, .range⟩]) =
+      Impl.escapeSheetName sheet ++ '!' :: Spec.render r' := by
+  have h := operand_prefixed_edited_sheet sheet [] true e r r' hne hg hs hg'
+  have hn' : ¬ (sheet ++ '!' :: Spec.render r ∈ names) := by
+    intro hm; simp at hn; exact hn hm
+  simp [Impl.adjustDefinedName, Impl.adjustRef, Impl.arrayMarks, Impl.isStartTok, Impl.isStopTok,
+    Impl.adjustRefLoop, hn', hb, h]
+
+/-! ## Ranges: the values a relocated range delivers to an aggregate -/
+
+/-- **range_values_insert** — rows or columns inserted (any position, any count): for a normalised
+range the rewritten range exists, and the values of its cells in row-major order, restricted to the
+kept ones (`P`, e.g. "not blank"), are exactly those of the original range — provided surviving cells
+keep their value at their new position (`hg`) and the cells of the inserted rows/columns are not kept
+(`hb`: they are blank). -/
+theorem range_values_insert {V : Type} (P : V → Bool) (dir : Dir) (num n : Nat)
+    (c1 c2 : Spec.ColEnd) (r1 r2 : Spec.RowEnd) (hc : c1.n ≤ c2.n) (hr : r1.n ≤ r2.n)
+    (g g' : Nat × Nat → V)
+    (hg : ∀ p p', Spec.shiftPos ⟨dir, num, n⟩ p = some p' → g' p' = g p)
+    (hb : ∀ p', (∀ p, Spec.shiftPos ⟨dir, num, n⟩ p ≠ some p') → P (g' p') = false) :
+    ∃ c1' r1' c2' r2', Spec.shiftRef false ⟨dir, num, n⟩ (.range c1 r1 c2 r2) = some (.range c1' r1' c2' r2') ∧
+      ((cellsOf c1'.n r1'.n c2'.n r2'.n).map g').filter P = ((cellsOf c1.n r1.n c2.n r2.n).map g).filter P := by
+  cases dir with
+  | rows =>
+    refine ⟨c1, ⟨r1.abs, insIdx num n r1.n⟩, c2, ⟨r2.abs, insIdx num n r2.n⟩, ?_, ?_⟩
+    · simp [Spec.shiftRef, Spec.shiftCol, Spec.shiftRow, Spec.moves, shiftIdx_ins]
+    · apply rect_rows_insert P g g' num n c1.n r1.n c2.n r2.n hr
+      · intro c row
+        exact hg (c, row) (c, insIdx num n row) (by simp [Spec.shiftPos, shiftIdx_ins])
+      · intro c j h1 h2
+        apply hb
+        intro p hp
+        simp only [Spec.shiftPos, shiftIdx_ins, Option.map_some, Option.some.injEq, Prod.mk.injEq] at hp
+        have := hp.2
+        unfold insIdx at this
+        split at this <;> omega
+  | cols =>
+    refine ⟨⟨c1.abs, insIdx num n c1.n⟩, r1, ⟨c2.abs, insIdx num n c2.n⟩, r2, ?_, ?_⟩
+    · simp [Spec.shiftRef, Spec.shiftCol, Spec.shiftRow, Spec.moves, shiftIdx_ins]
+    · apply rect_cols_insert P g g' num n c1.n r1.n c2.n r2.n hc
+      · intro c row
+        exact hg (c, row) (insIdx num n c, row) (by simp [Spec.shiftPos, shiftIdx_ins])
+      · intro j row h1 h2
+        apply hb
+        intro p hp
+        simp only [Spec.shiftPos, shiftIdx_ins, Option.map_some, Option.some.injEq, Prod.mk.injEq] at hp
+        have := hp.1
+        unfold insIdx at this
+        split at this <;> omega
+
+/-- **range_values_delete** — rows or columns deleted, neither corner of the range among them: the
+same statement, provided the deleted cells held nothing that is kept (`hd`: they were blank — what
+the CalcCellValue oracle arranges before it compares). -/
+theorem range_values_delete {V : Type} (P : V → Bool) (dir : Dir) (num n : Nat)
+    (c1 c2 : Spec.ColEnd) (r1 r2 : Spec.RowEnd) (hc : c1.n ≤ c2.n) (hr : r1.n ≤ r2.n)
+    (g g' : Nat × Nat → V) (r' : Spec.Ref)
+    (hs : Spec.shiftRef false ⟨dir, num, -(n : Int)⟩ (.range c1 r1 c2 r2) = some r')
+    (hg : ∀ p p', Spec.shiftPos ⟨dir, num, -(n : Int)⟩ p = some p' → g' p' = g p)
+    (hd : ∀ p, Spec.shiftPos ⟨dir, num, -(n : Int)⟩ p = none → P (g p) = false) :
+    ∃ c1' r1' c2' r2', r' = .range c1' r1' c2' r2' ∧
+      ((cellsOf c1'.n r1'.n c2'.n r2'.n).map g').filter P = ((cellsOf c1.n r1.n c2.n r2.n).map g).filter P := by
+  have surv : ∀ i j, Spec.shiftIdx (num : Int) (-(n : Int)) i = some j → (i < num ∨ num + n ≤ i) := by
+    intro i j h
+    apply Classical.byContradiction
+    intro hno
+    rw [shiftIdx_del_none num n i (by omega) (by omega)] at h
+    cases h
+  cases dir with
+  | rows =>
+    simp only [Spec.shiftRef, Spec.shiftCol, Spec.shiftRow, Spec.moves, Bool.not_false, Bool.or_true, and_true,
+      reduceCtorEq, false_and, if_false, if_true] at hs
+    cases h1 : Spec.shiftIdx (num : Int) (-(n : Int)) r1.n with
+    | none => simp [h1] at hs
+    | some j1 =>
+      cases h2 : Spec.shiftIdx (num : Int) (-(n : Int)) r2.n with
+      | none => simp [h1, h2] at hs
+      | some j2 =>
+        have s1 := surv _ _ h1
+        have s2 := surv _ _ h2
+        rw [shiftIdx_del num n _ s1] at h1
+        rw [shiftIdx_del num n _ s2] at h2
+        simp only [Option.some.injEq] at h1 h2
+        refine ⟨c1, ⟨r1.abs, delIdx num n r1.n⟩, c2, ⟨r2.abs, delIdx num n r2.n⟩, ?_, ?_⟩
+        · simp [shiftIdx_del num n _ s1, shiftIdx_del num n _ s2] at hs
+          exact hs.symm
+        · apply rect_rows_delete P g g' num n c1.n r1.n c2.n r2.n hr s1 s2
+          · intro c row hrow
+            exact hg (c, row) (c, delIdx num n row) (by simp [Spec.shiftPos, shiftIdx_del num n row hrow])
+          · intro c i a b
+            exact hd (c, i) (by simp [Spec.shiftPos, shiftIdx_del_none num n i a b])
+  | cols =>
+    simp only [Spec.shiftRef, Spec.shiftCol, Spec.shiftRow, Spec.moves, Bool.not_false, Bool.or_true, and_true,
+      reduceCtorEq, false_and, if_false, if_true] at hs
+    cases h1 : Spec.shiftIdx (num : Int) (-(n : Int)) c1.n with
+    | none => simp [h1] at hs
+    | some j1 =>
+      cases h2 : Spec.shiftIdx (num : Int) (-(n : Int)) c2.n with
+      | none => simp [h1, h2] at hs
+      | some j2 =>
+        have s1 := surv _ _ h1
+        have s2 := surv _ _ h2
+        refine ⟨⟨c1.abs, delIdx num n c1.n⟩, r1, ⟨c2.abs, delIdx num n c2.n⟩, r2, ?_, ?_⟩
+        · simp [shiftIdx_del num n _ s1, shiftIdx_del num n _ s2] at hs
+          exact hs.symm
+        · apply rect_cols_delete P g g' num n c1.n r1.n c2.n r2.n hc s1 s2
+          · intro c row hcol
+            exact hg (c, row) (delIdx num n c, row) (by simp [Spec.shiftPos, shiftIdx_del num n c hcol])
+          · intro i row a b
+            exact hd (i, row) (by simp [Spec.shiftPos, shiftIdx_del_none num n i a b])
+
+/-- **aggregate_invariant_under_insert** — "evaluates to the same result" for an aggregate over a
+range, with C08's specification of Excel's aggregates (`Calc.Spec.aggregate`: SUM, AVERAGE, COUNT,
+COUNTA, MAX, MIN, PRODUCT): after rows/columns are inserted, aggregating the rewritten range over the
+new grid gives the value the original range gave over the old grid. (Not true for functions that
+see blank cells, e.g. COUNTBLANK/ROWS — in Excel as well.) -/
+theorem aggregate_invariant_under_insert {N : Type} [Calc.NumOps N] (fn : Calc.Impl.AggFn)
+    (dir : Dir) (num n : Nat) (c1 c2 : Spec.ColEnd) (r1 r2 : Spec.RowEnd)
+    (hc : c1.n ≤ c2.n) (hr : r1.n ≤ r2.n) (g g' : Nat × Nat → Calc.Spec.Val N)
+    (hg : ∀ p p', Spec.shiftPos ⟨dir, num, n⟩ p = some p' → g' p' = g p)
+    (hb : ∀ p', (∀ p, Spec.shiftPos ⟨dir, num, n⟩ p ≠ some p') → g' p' = .blank) :
+    ∃ c1' r1' c2' r2', Spec.shiftRef false ⟨dir, num, n⟩ (.range c1 r1 c2 r2) = some (.range c1' r1' c2' r2') ∧
+      Calc.Spec.aggregate fn ((cellsOf c1'.n r1'.n c2'.n r2'.n).map g') =
+        Calc.Spec.aggregate fn ((cellsOf c1.n r1.n c2.n r2.n).map g) := by
+  obtain ⟨c1', r1', c2', r2', hs, hv⟩ := range_values_insert nonBlankB dir num n c1 c2 r1 r2 hc hr g g' hg
+    (fun p' hp => by rw [hb p' hp]; rfl)
+  refine ⟨c1', r1', c2', r2', hs, ?_⟩
+  rw [← aggregate_filter fn (List.map g' _), ← aggregate_filter fn (List.map g _), hv]
+
+/-- **aggregate_invariant_under_delete** — the same for deletion of rows/columns that hold no value
+and none of the range's corners. -/
+theorem aggregate_invariant_under_delete {N : Type} [Calc.NumOps N] (fn : Calc.Impl.AggFn)
+    (dir : Dir) (num n : Nat) (c1 c2 : Spec.ColEnd) (r1 r2 : Spec.RowEnd)
+    (hc : c1.n ≤ c2.n) (hr : r1.n ≤ r2.n) (g g' : Nat × Nat → Calc.Spec.Val N) (r' : Spec.Ref)
+    (hs : Spec.shiftRef false ⟨dir, num, -(n : Int)⟩ (.range c1 r1 c2 r2) = some r')
+    (hg : ∀ p p', Spec.shiftPos ⟨dir, num, -(n : Int)⟩ p = some p' → g' p' = g p)
+    (hd : ∀ p, Spec.shiftPos ⟨dir, num, -(n : Int)⟩ p = none → g p = .blank) :
+    ∃ c1' r1' c2' r2', r' = .range c1' r1' c2' r2' ∧
+      Calc.Spec.aggregate fn ((cellsOf c1'.n r1'.n c2'.n r2'.n).map g') =
+        Calc.Spec.aggregate fn ((cellsOf c1.n r1.n c2.n r2.n).map g) := by
+  obtain ⟨c1', r1', c2', r2', he, hv⟩ := range_values_delete nonBlankB dir num n c1 c2 r1 r2 hc hr g g' r' hs hg
+    (fun p hp => by rw [hd p hp]; rfl)
+  refine ⟨c1', r1', c2', r2', he, ?_⟩
+  rw [← aggregate_filter fn (List.map g' _), ← aggregate_filter fn (List.map g _), hv]
 
 /-! ## Where the current code does not satisfy the full statement -/
 
